@@ -83,13 +83,17 @@ def private_helpers(src, file, imp, not_called_in=None):
         info = src.impl_info(imp)
         if info and info['self_ty'][0] == 'tpath': head = info['self_ty'][1][-1]
     for f, i2, fn in src.fns:
-        if f != file or fn.vis.strip() != '' or fn.cfgs() or fn.cfg_test(): continue
+        if f != file or fn.cfgs() or fn.cfg_test(): continue
+        # private functions always; any function of the file when the reference body is known not to call it
+        if not_called_in is None and fn.vis.strip() != '': continue
         if not_called_in is not None and re.search(r'\b%s\b' % re.escape(fn.name), not_called_in): continue
         try:
             sig = parse_fn_sig(fn.header); body = fn_body(fn)
         except (ParseError, IndexError, TypeError):
             continue
-        if any(pn == 'self' for pn, ty in sig['params']): continue
+        has_self = any(pn == 'self' for pn, ty in sig['params'])
+        if has_self:
+            sig = dict(sig); sig['params'] = [(pn, ty) for pn, ty in sig['params'] if pn != 'self']
         if not all(re.match(r'^(mut )?[a-z_][A-Za-z0-9_]*$', pn.strip()) for pn, ty in sig['params']): continue
         self_txt = None
         if i2 is not None:
@@ -101,9 +105,10 @@ def private_helpers(src, file, imp, not_called_in=None):
             return re.sub(r'\bSelf\b', self_txt, t) if self_txt else t
         ent = dict(params=[(pn.strip()[4:].strip() if pn.strip().startswith('mut ') else pn.strip(), ty_txt(ty)) for pn, ty in sig['params']], body=body)
         if i2 is None:
-            if fn.parent is None or fn.parent.kind != 'impl': out[(fn.name,)] = ent
+            if (fn.parent is None or fn.parent.kind != 'impl') and not has_self: out[(fn.name,)] = ent
         elif head is not None and inf2['self_ty'][1][-1] == head:
-            out[('Self', fn.name)] = ent; out[(head, fn.name)] = ent
+            if has_self: out[('.self', fn.name)] = ent
+            else: out[('Self', fn.name)] = ent; out[(head, fn.name)] = ent
     return out
 
 def caller_param_types(src, imp, fn):
@@ -757,7 +762,7 @@ def extract_protocol(src, facts, notes):
             if not P['drop_shape']:
                 # the same protocol written with an intermediate `let` etc.: read it off the translated program
                 import countprogs
-                dp = countprogs.drop_prog(src)
+                dp = countprogs.extract_count_progs(src)['drop']
                 m = [re.match(r'^(IDec|ILoad|IRetIfNe|IDestroyFree)(?: (O\w+))?(?: (true|false|\d+))?$', i) for i in dp]
                 if len(dp) == 4 and all(m) and [x.group(1) for x in m] == ['IDec', 'IRetIfNe', 'ILoad', 'IDestroyFree'] \
                         and m[0].group(3) == 'true' and dp[1] == 'IRetIfNe 1':
@@ -1088,6 +1093,23 @@ def classify_cmp(ty, meth, fn, helpers=None, caller_types=None):
     stm = [x for x in body[1] if x[0] != 'item']
     t = body[2]
     if t is None: return 'FUnknownForm'
+    if stm and not (ty == 'ArcUnion' and meth == 'eq'):
+        # named intermediate values: `let this = self.0.as_ptr();`, `let (a, b) = (x, y);`, `let v: &T = &*p;` whose
+        # initialisers only read places are put back where they are used
+        import canon
+        nb = canon._strip_all(('block', stm, t))
+        def pure(x):
+            x = unwrap(x)
+            if x[0] in ('path', 'lit'): return True
+            if x[0] in ('field', 'cast', 'ptrcast'): return pure(x[1])
+            if x[0] == 'ref': return pure(x[2])
+            if x[0] == 'unary' and x[1] == '*': return pure(x[2])
+            if x[0] == 'mcall' and x[2] in ('as_ptr', 'borrow') and not x[4]: return pure(x[1])
+            return False
+        if isinstance(nb, tuple) and nb[0] == 'block' and nb[2] is not None and all(st[0] == 'let' and isinstance(st[1], str) and st[1].strip().isidentifier() and st[3] is not None and pure(st[3]) for st in nb[1]):
+            tt = nb[2]
+            for st in reversed(nb[1]): tt = canon._subst(tt, st[1].strip(), ('paren', st[3]))
+            stm = []; t = tt
     t = unwrap(t)
     opname = meth.split('::')[0] if '::' not in meth else meth
     # plain delegation by operator
